@@ -121,8 +121,8 @@ class Ctx:
         self.cov["notes"] = self.notes
         if self.cov["discharged"] == 0:
             # nothing was discharged on this run (broken proof): keep the file valid via the generic keys
-            self.cov["proof_obligations_open"] = self.cov.pop("obligations")
-            self.cov.pop("discharged")
+            self.cov["proof_obligations_open"] = self.cov.pop("obligations", 0)
+            self.cov.pop("discharged", None)
             self.cov["distinct_nontrivial"] = max(self.cov["distinct_nontrivial"], 0)
         if self.broken:
             self.cov["broken"] = [f"{n}: {d[:300]}" for n, d in self.broken]
